@@ -169,7 +169,10 @@ func (c *RunnerCloserManager) Run(ctx context.Context) error {
 		})
 	}
 
+	// AddCloser may be called concurrently: read the closers under its lock
+	c.mngr.lock.Lock()
 	errCh := make(chan error, len(c.closers))
+	c.mngr.lock.Unlock()
 	go func() {
 		errCh <- c.mngr.Run(ctx)
 	}()
